@@ -35,20 +35,20 @@ def apply(F):
     F.wrap([], r"impl<'a> PskBundle<'a>")
 
     F.wrap([], r"pub enum OpModeR<'a, Kem: KemTrait>")
-    F.contract([r"impl<Kem: KemTrait> OpModeR<'_, Kem>"], r'fn get_pk_sender_id\b', ret='r', clauses='''
+    F.contract([r"impl<(?:'\w+,\s*)?Kem: KemTrait> OpModeR<'\w+, Kem>"], r'fn get_pk_sender_id\b', ret='r', clauses='''
         ensures /*@C08 C02 C01*/ r == self.sender_pk(),
 ''')
-    F.insert_in([], r"impl<Kem: KemTrait> OpModeR<'_, Kem>", '''
+    F.insert_in([], r"impl<(?:'\w+,\s*)?Kem: KemTrait> OpModeR<'\w+, Kem>", '''
     /// ghost: RFC 9180 §5.1.3/§5.1.4: pkS is an input exactly in the Auth and AuthPsk modes
     pub open spec fn sender_pk(&self) -> Option<&Kem::PublicKey> {
         match self { OpModeR::Auth(pk) => Some(pk), OpModeR::AuthPsk(pk, _) => Some(pk), _ => None }
     }
 ''')
     F.wrap([], r"pub enum OpModeS<'a, Kem: KemTrait>")
-    F.contract([r"impl<Kem: KemTrait> OpModeS<'_, Kem>"], r'fn get_sender_id_keypair\b', ret='r', clauses='''
+    F.contract([r"impl<(?:'\w+,\s*)?Kem: KemTrait> OpModeS<'\w+, Kem>"], r'fn get_sender_id_keypair\b', ret='r', clauses='''
         ensures /*@C08 C02 C01*/ r == self.sender_keypair(),
 ''')
-    F.insert_in([], r"impl<Kem: KemTrait> OpModeS<'_, Kem>", '''
+    F.insert_in([], r"impl<(?:'\w+,\s*)?Kem: KemTrait> OpModeS<'\w+, Kem>", '''
     /// ghost: RFC 9180 §5.1.3/§5.1.4: skS is an input exactly in the Auth and AuthPsk modes
     pub open spec fn sender_keypair(&self) -> Option<(&Kem::PrivateKey, &Kem::PublicKey)> {
         match self { OpModeS::Auth(kp) => Some((&kp.0, &kp.1)), OpModeS::AuthPsk(kp, _) => Some((&kp.0, &kp.1)), _ => None }
@@ -72,7 +72,7 @@ def apply(F):
         for fn in ('mode_id', 'get_psk_bytes', 'get_psk_id'):
             F.contract(I, r'fn %s\b' % fn, ret='r', clauses=CL[fn] + ',\n')
         F.insert_in([], I[0], TRAIT_SPEC)
-        F.insert_in([], r"impl<Kem: KemTrait> %s<'_, Kem>" % t, MODE_SPEC % {'T': t})
+        F.insert_in([], r"impl<(?:'\w+,\s*)?Kem: KemTrait> %s<'\w+, Kem>" % t, MODE_SPEC % {'T': t})
         F.wrap([], I[0])
-    F.wrap([], r"impl<Kem: KemTrait> OpModeR<'_, Kem>")
-    F.wrap([], r"impl<Kem: KemTrait> OpModeS<'_, Kem>")
+    F.wrap([], r"impl<(?:'\w+,\s*)?Kem: KemTrait> OpModeR<'\w+, Kem>")
+    F.wrap([], r"impl<(?:'\w+,\s*)?Kem: KemTrait> OpModeS<'\w+, Kem>")
